@@ -18,47 +18,138 @@ class Threshold:
     value = Fraction(0)
 
 
+class Bd:
+    """affine bound  c + sum coeff*size_symbol  (lightweight, hashable)"""
+    __slots__ = ("c", "s", "_h")
+
+    def __init__(self, c=0, s=()):
+        self.c = c
+        self.s = s
+        self._h = None
+
+    def is_const(self):
+        return not self.s
+
+    def const_value(self):
+        if self.s:
+            raise Unsupported("bound is not constant: %r" % self)
+        return Fraction(self.c)
+
+    def __add__(self, o):
+        if isinstance(o, (int, Fraction)):
+            return Bd(self.c + o, self.s)
+        if not isinstance(o, Bd):
+            o = bound(o)
+        if not o.s:
+            return Bd(self.c + o.c, self.s)
+        if not self.s:
+            return Bd(self.c + o.c, o.s)
+        d = dict(self.s)
+        for k, v in o.s:
+            nv = d.get(k, 0) + v
+            if nv == 0:
+                d.pop(k, None)
+            else:
+                d[k] = nv
+        return Bd(self.c + o.c, tuple(sorted(d.items())))
+
+    __radd__ = __add__
+
+    def __neg__(self):
+        return Bd(-self.c, tuple((k, -v) for k, v in self.s))
+
+    def __sub__(self, o):
+        if isinstance(o, (int, Fraction)):
+            return Bd(self.c - o, self.s)
+        if not isinstance(o, Bd):
+            o = bound(o)
+        return self + (-o)
+
+    def __rsub__(self, o):
+        return (-self) + o
+
+    def scale(self, k):
+        k = Fraction(k)
+        return Bd(self.c * k, tuple((n, v * k) for n, v in self.s))
+
+    def __eq__(self, o):
+        if isinstance(o, (int, Fraction)):
+            return not self.s and self.c == o
+        if not isinstance(o, Bd):
+            return NotImplemented
+        return self.c == o.c and self.s == o.s
+
+    def __hash__(self):
+        if self._h is None:
+            self._h = hash((Fraction(self.c), self.s))
+        return self._h
+
+    def key(self):
+        return (str(Fraction(self.c)), tuple((n, str(v)) for n, v in self.s))
+
+    def poly(self):
+        p = Poly.const(self.c)
+        for n, v in self.s:
+            p = p + Poly.sym(n).scale(v)
+        return p
+
+    def __repr__(self):
+        return repr(self.poly())
+
+
 def bound(v):
-    if isinstance(v, Poly):
+    if isinstance(v, Bd):
         return v
-    v = to_pw(v)
-    if not v.is_leaf():
-        raise Unsupported("piecewise array bound")
-    r = v.leaf
-    if not r.den.is_const():
-        raise Unsupported("rational array bound %r" % (r,))
-    return as_poly(r)
-
-
-def sign_large(p):
-    """sign of polynomial p (affine in size symbols) for all sizes >= threshold: -1, 0, +1"""
-    if p.is_zero():
-        return 0
-    if p.is_const():
-        return 1 if p.const_value() > 0 else -1
+    if isinstance(v, (int, Fraction)) and not isinstance(v, bool):
+        return Bd(v)
+    if not isinstance(v, Poly):
+        v = to_pw(v)
+        if not v.is_leaf():
+            raise Unsupported("piecewise array bound")
+        r = v.leaf
+        if not r.den.is_const():
+            raise Unsupported("rational array bound %r" % (r,))
+        v = as_poly(r)
     c0 = Fraction(0)
-    coeffs = []
-    for m, c in p.t.items():
+    s = []
+    for m, c in v.t.items():
         if m == ():
             c0 = c
         elif len(m) == 1 and m[0][1] == 1 and m[0][0][0] == "s":
-            coeffs.append(c)
+            s.append((m[0][0][1], c))
         else:
-            raise Unsupported("array bound not affine in sizes: %r" % (p,))
+            raise Unsupported("array bound not affine in sizes: %r" % (v,))
+    return Bd(c0, tuple(sorted(s)))
+
+
+_SIGN_CACHE = {}
+
+
+def sign_large(p):
+    """sign of the affine bound p for all sizes >= threshold: -1, 0, +1"""
+    p = bound(p)
+    if not p.s:
+        return (p.c > 0) - (p.c < 0)
+    r = _SIGN_CACHE.get(p)
+    if r is not None:
+        return r
+    coeffs = [v for _, v in p.s]
     if all(c > 0 for c in coeffs):
-        s = 1
+        r = 1
     elif all(c < 0 for c in coeffs):
-        s = -1
+        r = -1
     else:
         raise Unsupported("array bounds on different size symbols cannot be ordered: %r" % (p,))
-    # threshold: |c0| < min|c| * N  for every symbol
-    need = abs(c0) / min(abs(c) for c in coeffs) + 1
+    need = abs(Fraction(p.c)) / min(abs(c) for c in coeffs) + 1
     if need > Threshold.value:
         Threshold.value = need
-    return s
+    _SIGN_CACHE[p] = r
+    return r
 
 
 def cmp(a, b):
+    if a is b:
+        return 0
     return sign_large(bound(a) - bound(b))
 
 
@@ -152,7 +243,7 @@ def covers(boxes, target):
 
 
 def concrete_extent(p):
-    """extent polynomial -> int if constant else None"""
+    """extent -> int if constant else None"""
     p = bound(p)
     if p.is_const():
         c = p.const_value()
